@@ -8,5 +8,5 @@ Extraction "../ocaml/gen/resources_model.ml"
   manifest version_info group_list group_new g_type g_entries ge_bytes_in_res ge_id g_image group_write group_write_orig
   pe_resources name_eq eq_string display_id sec_bytes
   name_matches t_get_ent t_get_dir t_find_resource t_find_resource_ex t_find_parts t_first as_bytes_l tgt_ent
-  items_clean complete walk_sound kids_of
+  items_clean complete walk_sound kids_of t_manifest t_groups utf8_valid g_count
   ico_encode.
